@@ -112,7 +112,12 @@ func (s *Session) WriteMessage(req *pool.Message) error {
 	if err != nil {
 		return fmt.Errorf("cannot marshal: %w", err)
 	}
-	err = s.connection.WriteWithContext(req.Context(), data)
+	// the write (and the handshake it may have to run first) ends with the context of the message or with the connection
+	ctx, cancel := context.WithCancel(req.Context())
+	defer cancel()
+	stop := context.AfterFunc(s.Context(), cancel)
+	defer stop()
+	err = s.connection.WriteWithContext(ctx, data)
 	if err != nil {
 		return fmt.Errorf("cannot write to connection: %w", err)
 	}
